@@ -316,3 +316,68 @@ Theorem C16_kin_constraints_constructor : forall (zl zs tE sE gm sg re sre : R) 
         /\ In (VTuple [VStr "log_m2l_scaling"; lm]) rest /\ In (VTuple [VStr "gamma_pl_scaling"; gpl]) rest).
 Proof. intros. apply kin_constraints_ctor_wiring. Qed.
 Print Assumptions C16_kin_constraints_constructor.
+
+(* THE SUB-CLASS CONSTRUCTORS (SubCtor.v): DdtKinConstraints, DdtGaussKinConstraints and KinConstraintsComposite run on parameters that each carry
+   their own name as value; `super(C, self).__init__` is the serialised KinConstraints.__init__ (base list read from the class statement), which
+   calls the recording BaseLensConfig.__init__.  What the sub-class keeps (Ddt samples / weights or mean / sigma, kappa_ext mean / sigma) is stored
+   unswapped, and every parameter shared with the base configuration reaches it under its own name - positional arguments bound to the base's
+   parameters in the base's order.  For the composite model: which arrays become the halo normalisation / scale radius in each input mode, the axes
+   handed on, and the refusals. *)
+Require Import C16.SubCtor.
+Theorem C16_ddt_kin_constructor : forall rg cu,
+  exists o log, yields Gs 120 (CClass "DdtKinConstraints" src_DdtKinConstraints_init) None [] (tagged src_DdtKinConstraints_init []) rg cu o cu log
+    /\ SubCtor.fld o "_ddt_sample" = Some (VStr "ddt_samples") /\ SubCtor.fld o "_ddt_weights" = Some (VStr "ddt_weights")
+    /\ SubCtor.fld o "_kappa_ext_mean" = Some (VStr "kappa_ext") /\ SubCtor.fld o "_kappa_ext_sigma" = Some (VStr "kappa_ext_sigma")
+    /\ SubCtor.fld o "_sigma_v_measured" = Some (VStr "sigma_v_measured") /\ SubCtor.fld o "_sigma_v_error_independent" = Some (VStr "sigma_v_error_independent")
+    /\ SubCtor.fld o "_sigma_v_error_covariant" = Some (VStr "sigma_v_error_covariant") /\ SubCtor.fld o "_sigma_v_error_cov_matrix" = Some (VStr "sigma_v_error_cov_matrix")
+    /\ reaches_base src_DdtKinConstraints_init [] log [] = true
+    /\ List.length (shared src_DdtKinConstraints_init) = 22%nat
+    /\ SubCtor.assoc "gamma_pl_scaling" (received log) = Some (VStr "gamma_pl_scaling").
+Proof. exact ddt_kin_ctor. Qed.
+Print Assumptions C16_ddt_kin_constructor.
+Theorem C16_ddt_gauss_kin_constructor : forall rg cu,
+  exists o log, yields Gs 120 (CClass "DdtGaussKinConstraints" src_DdtGaussKinConstraints_init) None [] (tagged src_DdtGaussKinConstraints_init []) rg cu o cu log
+    /\ SubCtor.fld o "_ddt_mean" = Some (VStr "ddt_mean") /\ SubCtor.fld o "_ddt_sigma" = Some (VStr "ddt_sigma")
+    /\ SubCtor.fld o "_kappa_ext_mean" = Some (VStr "kappa_ext") /\ SubCtor.fld o "_kappa_ext_sigma" = Some (VStr "kappa_ext_sigma")
+    /\ SubCtor.fld o "_sigma_v_measured" = Some (VStr "sigma_v_measured") /\ SubCtor.fld o "_sigma_v_error_independent" = Some (VStr "sigma_v_error_independent")
+    /\ reaches_base src_DdtGaussKinConstraints_init [] log [] = true
+    /\ List.length (shared src_DdtGaussKinConstraints_init) = 21%nat
+    /\ SubCtor.assoc "gamma_pl_scaling" (received log) = Some VNone.
+Proof. exact ddt_gauss_kin_ctor. Qed.
+Print Assumptions C16_ddt_gauss_kin_constructor.
+Theorem C16_composite_constructor : forall rg cu (pop : bool),
+  let ov := comp_over (tv "a0" "a1") (tv "r0" "r1") (tv "k0" "k1") (tv "h0" "h1") (tv "s0" "s1") pop (tv "l0" "l1") in
+  exists o log, comp_run rg cu ov o log
+    /\ SubCtor.fld o "_halo_normalization_array" = Some (tv "a0" "a1") /\ SubCtor.fld o "_is_normalization_alpha_Rs" = Some (VBool true)
+    /\ SubCtor.fld o "_r_scale_angle_array" = Some (tv "r0" "r1")
+    /\ SubCtor.fld o "gamma_in_array" = Some (tv "g0" "g1") /\ SubCtor.fld o "log_m2l_array" = Some (tv "l0" "l1")
+    /\ SubCtor.fld o "_is_m2l_population_level" = Some (VBool pop)
+    /\ SubCtor.fld o "_gamma_in_prior_mean" = Some (VStr "gamma_in_prior_mean") /\ SubCtor.fld o "_gamma_in_prior_std" = Some (VStr "gamma_in_prior_std")
+    /\ SubCtor.assoc "gamma_in_scaling" (base_of (rev log)) = Some (tv "g0" "g1")
+    /\ SubCtor.assoc "log_m2l_scaling" (base_of (rev log)) = Some (if pop then tv "l0" "l1" else VNone)
+    /\ SubCtor.assoc "lens_model_list" (base_of (rev log)) = Some (VList [VStr "GNFW"; VStr "MULTI_GAUSSIAN"])
+    /\ SubCtor.assoc "MGE_light" (base_of (rev log)) = Some (VBool false) /\ SubCtor.assoc "hernquist_approx" (base_of (rev log)) = Some (VBool false)
+    /\ reaches_base src_KinConstraintsComposite_init ov [hd ("", []) (rev log)] ["kwargs_mge_light"] = true.
+Proof. exact composite_ctor_alpha. Qed.
+Print Assumptions C16_composite_constructor.
+Theorem C16_composite_constructor_other_modes : forall rg cu,
+  (let ov := comp_over VNone (tv "r0" "r1") (tv "k0" "k1") (tv "h0" "h1") (tv "s0" "s1") true (tv "l0" "l1") in
+   exists o log, comp_run rg cu ov o log
+    /\ SubCtor.fld o "_halo_normalization_array" = Some (tv "k0" "k1") /\ SubCtor.fld o "_is_normalization_alpha_Rs" = Some (VBool false)
+    /\ SubCtor.fld o "_r_scale_angle_array" = Some (tv "r0" "r1"))
+  /\ (let ov := comp_over VNone VNone (tv "k0" "k1") (tv "h0" "h1") (tv "s0" "s1") true (tv "l0" "l1") in
+   exists o log, comp_run rg cu ov o log
+    /\ SubCtor.fld o "_halo_normalization_array" = Some (VStr "kappa_s(rho0,r_s)") /\ SubCtor.fld o "_is_normalization_alpha_Rs" = Some (VBool false)
+    /\ SubCtor.fld o "_r_scale_angle_array" = Some (VStr "r_s_angle(rho0,r_s)")
+    /\ hd ("", []) log = ("get_kappa_s_r_s_angle", [tv "h0" "h1"; tv "s0" "s1"])).
+Proof. intros rg cu. exact (conj (composite_ctor_kappa rg cu) (composite_ctor_rho0 rg cu)). Qed.
+Print Assumptions C16_composite_constructor_other_modes.
+Theorem C16_composite_constructor_refuses : forall rg cu,
+  (exists ds, call Gs 140 (CClass "KinConstraintsComposite" src_KinConstraintsComposite_init) None []
+     (tagged src_KinConstraintsComposite_init (comp_over VNone (tv "r0" "r1") VNone (tv "h0" "h1") VNone true (tv "l0" "l1"))) (World rg cu [] ds []) = Exc "ValueError")
+  /\ (exists ds, call Gs 140 (CClass "KinConstraintsComposite" src_KinConstraintsComposite_init) None []
+     (tagged src_KinConstraintsComposite_init (comp_over (VArr [VStr "a0"; VStr "a1"; VStr "a2"]) (tv "r0" "r1") VNone VNone VNone true (tv "l0" "l1"))) (World rg cu [] ds []) = Exc "ValueError")
+  /\ (exists ds, call Gs 140 (CClass "KinConstraintsComposite" src_KinConstraintsComposite_init) None []
+     (tagged src_KinConstraintsComposite_init (comp_over (tv "a0" "a1") (tv "r0" "r1") VNone VNone VNone false (VArr [VStr "l0"]))) (World rg cu [] ds []) = Exc "ValueError").
+Proof. exact composite_ctor_refuses. Qed.
+Print Assumptions C16_composite_constructor_refuses.
